@@ -668,7 +668,14 @@ fn avro_ocf(b: &[RecordBatch], codec: Option<arrow_avro::compression::Compressio
         w.write(x).expect("avro write");
     }
     w.finish().expect("avro finish");
-    w.into_inner()
+    let mut bytes = w.into_inner();
+    // the writer draws the 16-byte sync marker from an RNG: pin it, the corpus must be the same in
+    // every process (any 16 bytes are a valid marker)
+    let sync = bytes[bytes.len() - 16..].to_vec();
+    for p in find_all(&bytes.clone(), &sync) {
+        bytes[p..p + 16].copy_from_slice(b"C08-sync-marker!");
+    }
+    bytes
 }
 
 fn find_all(hay: &[u8], needle: &[u8]) -> Vec<usize> {
